@@ -239,6 +239,10 @@ func fileInfo(name string, part *multipart.Part) os.FileInfo {
 		if err != nil {
 			return &fi
 		}
+	} else if params["mtime-nsecs"] == nil {
+		// no modification time was sent: leave it unset instead of
+		// reporting the Unix epoch
+		return &fi
 	}
 	if v := params["mtime-nsecs"]; v != nil {
 		nsecs, _ = strconv.ParseInt(v[0], 10, 64)
